@@ -452,6 +452,14 @@ def run_query(spec, hb, q, args, known):
                     ent['native'] = 'reproduced-crash'
                 else:
                     ent['native'] = 'not-reproduced'
+                if ent['native'] == 'not-reproduced' and q.get('concretise'):
+                    # abstracted query: the solver's input need not violate the real code, but an input derived from the
+                    # abstract values may. Candidates come from the spec; only a natively failing one is reported.
+                    for k_, alt in enumerate(q['concretise'](vec)):
+                        code2, out2 = hb.replay(q['entry'], alt, os.path.join(hb.dir, 'c_%s_%d_alt%d.vec' % (name, len(qr.failed), k_)))
+                        if code2 == 10 and ('ASSERT-FAIL ' + label) in out2:
+                            ent['native'] = 'reproduced'; ent['vec'] = alt; ent['native_out'] = out2[-800:]; ent['concretised'] = True
+                            break
             qr.failed.append(ent)
         # ---- reachability of every harness assertion (witnesses are part of the same run)
         optional = set(q.get('optional_reach', []))
